@@ -314,16 +314,21 @@ class Wsdl11(XmlSchema):
 
             operation.set('parameterOrder', method.in_message.get_element_name())
 
+            # messages are defined in the target namespace of the wsdl
+            # document, whatever namespace the message *element* is in
+            pref_tns = self.interface.get_namespace_prefix(
+                                                      self.interface.get_tns())
+
             op_input = SubElement(operation, WSDL11("input"))
             op_input.set('name', method.in_message.get_element_name())
-            op_input.set('message',
-                          method.in_message.get_element_name_ns(self.interface))
+            op_input.set('message', '%s:%s' % (pref_tns,
+                                        method.in_message.get_element_name()))
 
             if (not method.is_callback) and (not method.is_async):
                 op_output = SubElement(operation, WSDL11("output"))
                 op_output.set('name', method.out_message.get_element_name())
-                op_output.set('message', method.out_message.get_element_name_ns(
-                                                                self.interface))
+                op_output.set('message', '%s:%s' % (pref_tns,
+                                       method.out_message.get_element_name()))
 
                 if not (method.faults is None):
                     for f in method.faults:
